@@ -69,6 +69,9 @@ def reset_initial_conditions(
     InitCond.day_submerged = 0
     InitCond.irr_net_cum = 0
     InitCond.dap = 0
+    # yesterday's evaporative demand enters the irrigation depletion estimate
+    InitCond.e_pot = 0
+    InitCond.t_pot = 0
 
     InitCond.aer_days_comp = np.zeros(int(Soil.nComp))
 
@@ -80,6 +83,7 @@ def reset_initial_conditions(
     InitCond.germination = False
     InitCond.premat_senes = False
     InitCond.harvest_flag = False
+    InitCond.yield_form = False
 
     # Harvest index
     # harvest_index
@@ -121,6 +125,9 @@ def reset_initial_conditions(
     InitCond.protected_seed = 0
     InitCond.sumET0EarlySen = 0
     InitCond.HIfinal = crop.HI0
+    InitCond.hi_ref = 0.0
+    InitCond.cc0_adj = crop.CC0
+    InitCond.z_root = crop.Zmin
     InitCond.DryYield = 0
     InitCond.FreshYield = 0
 
